@@ -46,6 +46,9 @@ _PROP_ESC = st.sampled_from(["R&amp;D team", "a &lt; b &gt; c", "&nbsp;x", "&#65
 PROP_TEXT = st.one_of(_PROP_BODY, _PROP_BODY, _PROP_ESC, st.tuples(st.sampled_from(["", "Z", "T", "0", "(", "'", ".", "-"]), _PROP_BODY, st.sampled_from(["Z", "z", "0", ".", ")", "'", ":", "T00:00:00Z", "-"])).map(lambda t: "".join(t)))
 
 
+# render options only this check adds to the profile options: a first table row merged into one cell (ragged stored rows; get_dim() must still equal the shape of get_table())
+EXTRA_OPTS = {"odt": {"span_first_cell": [False, True]}, "odp": {"span_first_cell": [False, True]}}
+
 def props_strategy():
     return st.fixed_dictionaries({}, optional={k: PROP_TEXT for k in ("title", "author", "subject", "keywords", "description")})
 
@@ -320,7 +323,7 @@ def _case_strategy(fmt_kind):
     path = st.sampled_from(PATH_FORMS)
     if kind == "doc":
         container = "zip" if PROFILES[fmt]["ext"] in ("docx", "pptx", "odt", "odp", "odg", "epub") else None
-        optst = st.fixed_dictionaries({k: st.sampled_from(v) for k, v in PROFILES[fmt].get("opts", {}).items()})
+        optst = st.fixed_dictionaries({k: st.sampled_from(v) for k, v in {**PROFILES[fmt].get("opts", {}), **EXTRA_OPTS.get(fmt, {})}.items()})
         container = "ole" if fmt in ("ppt", "doc") else container
         base = st.fixed_dictionaries({"kind": st.just("doc"), "format": st.just(fmt), "doc": model.documents(PROFILES[fmt], max_blocks=3), "props": props_strategy(), "path": path, "opts": optst})
     elif kind == "grid":
@@ -359,7 +362,7 @@ def fixed_cases(kind: str, fmt: str) -> list:
     from vf.props import c14
     out = []
     if kind == "doc":
-        opts = {k: list(dict.fromkeys(map(lambda v: v, vs))) for k, vs in PROFILES[fmt].get("opts", {}).items()}
+        opts = {k: list(dict.fromkeys(map(lambda v: v, vs))) for k, vs in {**PROFILES[fmt].get("opts", {}), **EXTRA_OPTS.get(fmt, {})}.items()}
         keys = sorted(opts)
         combos = list(itertools.product(*[opts[k] for k in keys])) if keys else [()]
         if len(combos) > 64:
